@@ -349,7 +349,7 @@ def check_block(ctx, case):
     # hand out the same transactions (ids and bytes) and leave a block that serialises to the input
     want_ids = [t.txid().hex() for t in txs]
     want_raw = [t.serialize() for t in txs]
-    for mode in ('single', 'mixed', 'single_dict'):
+    for mode in ('single', 'mixed', 'single_dict', 'dict_between'):
         try:
             b4 = Block.parse_bytes(raw, parse_transactions=False)
             got = []
@@ -360,6 +360,19 @@ def check_block(ctx, case):
                         break
                     got.append((d['txid'].hex() if isinstance(d['txid'], bytes) else d['txid'], d['rawtx']))
                 ser4 = None
+            elif mode == 'dict_between':
+                # some transactions read as objects, the dictionary reader asked in between, the rest read as objects
+                b4.parse_transactions(limit=1 + len(txs) // 3)
+                n_before = len(b4.transactions)
+                dicts4 = b4.parse_transactions_dict()
+                b4.parse_transactions()
+                got = [(t.txid, t.raw()) for t in b4.transactions]
+                ser4 = b4.serialize()
+                rest = [(d['txid'].hex() if isinstance(d['txid'], bytes) else d['txid']) for d in dicts4]
+                if rest != want_ids[n_before:]:
+                    ctx.disc('block.reader_dict_between.dict_ids', 'dictionary reader after %d object reads gives ids %r, '
+                             'the remaining transactions are %r' % (n_before, rest[:3], want_ids[n_before:][:3]), case)
+                    return
             else:
                 if mode == 'mixed':
                     b4.parse_transactions(limit=1)
@@ -552,7 +565,7 @@ def run(ctx):
         check_block(ctx, case)
 
     ctx.run_given('block', st.fixed_dictionaries({'kind': st.just('block'), 'block': txgen.block_cases()}),
-                  prop_block, ctx.scale(40, 600))
+                  prop_block, ctx.scale(30, 600))
 
     if ctx.thorough():
         # coverage-guided campaigns with the round-trip oracle inside the target (atheris / libFuzzer)
